@@ -59,7 +59,8 @@ INSIDE_TOL = 1e-9
 
 # ----------------------------------------------------------------------------- building and reading
 
-_INTS = {'int': int, 'npint64': np.int64, 'npint32': np.int32}
+_INTS = {'int': int, 'npint64': np.int64, 'npint32': np.int32, 'npint8': np.int8, 'npuint8': np.uint8, 'npint16': np.int16,
+         'npuint16': np.uint16, 'npuint32': np.uint32, 'npuint64': np.uint64}
 READONLY_FORMS = ('readonly', 'frombuffer', 'memmap')
 INT_FORMS = ('intarray', 'intlist', 'inttuple')
 
@@ -86,6 +87,12 @@ def spell_cutoff(case, cutoff):
         return int(cutoff) if f == 'int' else np.int64(int(cutoff))
     if f == 'npfloat':
         return np.float64(cutoff)
+    if f == 'narrow':
+        # a numpy scalar of another type that holds the value exactly (numpy.longdouble always does)
+        t = g3.narrow_cut_type(cutoff, (case.get('form') or {}).get('narrow', 0))
+        v = getattr(np, t)(int(cutoff)) if np.dtype(t).kind in 'iu' else getattr(np, t)(cutoff)
+        assert float(v) == cutoff, 'narrow cutoff type %s does not hold %r' % (t, cutoff)
+        return v
     return cutoff
 
 
@@ -95,8 +102,14 @@ def spell_pbc(case, pbc):
     return tuple(pbc) if f == 'tuple' else np.array(pbc, dtype=bool) if f == 'nparray' else pbc
 
 
-def spell_pos(pos0, form):
+def spell_pos(pos0, form, narrow=0):
     """the positions in the form the case asks for; every form holds exactly the numbers of pos0"""
+    if form == 'narrow':
+        dt = g3.narrow_pos_dtype(pos0, narrow)
+        with np.errstate(over='ignore', under='ignore', invalid='ignore'):
+            a = pos0.astype(dt)
+        assert np.array_equal(a.astype(np.float64), pos0), 'narrow dtype %s does not hold the positions' % dt
+        return a
     if form == 'array':
         return pos0.copy()
     if form == 'readonly':
@@ -155,6 +168,21 @@ def form_labels(case, system):
     f = case.get('form') or {}
     pf = f.get('pos', 'array')
     labels = {'pos_' + pf} | scale_labels(case)
+    if pf == 'narrow':
+        dt = np.dtype(g3.narrow_pos_dtype(np.array(case['pos'], dtype=float).reshape(-1, 3), f.get('narrow', 0)))
+        if dt.byteorder == '>':
+            labels.add('pos_bigendian')
+        if dt.kind in 'iub':
+            labels.add('pos_narrow_int')
+            if dt.kind == 'u':
+                labels.add('pos_unsigned')
+        elif dt.itemsize < 8:
+            labels.add('pos_narrow_float')
+    if f.get('cutoff') == 'narrow':
+        labels.add('cutoff_narrow_int' if np.dtype(g3.narrow_cut_type(float(case['cutoff']), f.get('narrow', 0))).kind in 'iu'
+                   else 'cutoff_narrow_float')
+    if f.get('sizes', 'int') not in ('int', 'npint64', 'npint32') and (case.get('initialsize') is not None or case.get('deltasize') is not None):
+        labels.add('sizes_narrow_int')
     stored = np.asarray(system.atoms.pos)
     if not stored.flags['WRITEABLE']:
         labels.add('pos_readonly_stored')
@@ -205,22 +233,29 @@ def method_model(system, model):
 
 def build_system(case):
     """returns (system, pos, V, o, pbc) where pos/V/o are the numbers the System holds (read back as data)"""
+    return build_system2(case)[:5]
+
+
+def build_system2(case):
+    """build_system plus the caller's side of the hand-over: (..., handed) with handed = {'pos': the object given to Atoms,
+    'vects' / 'origin': the arrays given to Box, 'pbc': the object given to System}"""
     import atomman as am
     c = case['cell']
-    V0, o0 = gens.cell_vects(c), gens.cell_origin(c)
+    V0, o0 = g3.cell_vects3(c), g3.cell_origin3(c)
     pos0 = np.array(case['pos'], dtype=float).reshape(-1, 3)
     s = (pos0 - o0) @ np.linalg.inv(V0)
     # domain of the property: all atoms inside the cell (generator bug otherwise -> harness error)
     assert s.min() >= -INSIDE_TOL and s.max() <= 1 + INSIDE_TOL, 'generator produced an atom outside the cell'
-    system = am.System(atoms=am.Atoms(pos=spell_pos(pos0, form_of(case, 'pos', 'array'))),
-                       box=am.Box(vects=V0.copy(), origin=o0.copy()), pbc=spell_pbc(case, case['pbc']))
+    handed = {'pos': spell_pos(pos0, form_of(case, 'pos', 'array'), form_of(case, 'narrow', 0)), 'vects': V0.copy(), 'origin': o0.copy(),
+              'pbc': spell_pbc(case, case['pbc'])}
+    system = am.System(atoms=am.Atoms(pos=handed['pos']), box=am.Box(vects=handed['vects'], origin=handed['origin']), pbc=handed['pbc'])
     pos = np.array(system.atoms.pos, dtype=float)
     V = np.array(system.box.vects, dtype=float)
     o = np.array(system.box.origin, dtype=float)
     vmax = np.abs(V0).max()
     require(pos.shape == pos0.shape and np.array_equal(pos, pos0), 'System does not hold the positions it was given')
     require(np.abs(V - V0).max() <= 1e-9 * vmax and np.abs(o - o0).max() == 0.0, 'System does not hold the cell it was given')
-    return system, pos, V, o, [bool(p) for p in case['pbc']]
+    return system, pos, V, o, [bool(p) for p in case['pbc']], handed
 
 
 def read_lists(nl, N, what='NeighborList'):
@@ -264,7 +299,9 @@ def is_exact_case(case, pos, V, o, cutoff):
     if not (bool(case.get('dyadic')) and sc in (1.0, 8.0) and mant == 0.5 and -45 <= ex <= 35):
         return False
     sc = sc * ls                             # exact
-    return np.count_nonzero(V - np.diag(np.diag(V))) == 0 \
+    # orthogonal cell along the axes: a diagonal matrix or one of its exact images (axes / vectors renamed and reversed)
+    nz = V != 0.0
+    return bool(np.all(nz.sum(axis=0) == 1) and np.all(nz.sum(axis=1) == 1)) \
         and is_small_dyadic(pos / sc, V / sc, o / sc, bits=3) and is_small_dyadic(cutoff / sc, bits=20, bound=2 ** 5)
 
 
@@ -282,9 +319,11 @@ def expected(pos, V, pbc, cutoff, exact=False):
     return exp, near, D, D0, np.zeros_like(off)
 
 
-def case_labels(case, pos, V, o, pbc, cutoff, exp, near, D0, rb, maxcoord, atcut=None, exact=False):
+def case_labels(case, pos, V, o, pbc, cutoff, exp, near, D0, rb, maxcoord, atcut=None, exact=False, D=None):
     c = case['cell']
-    labels = gens.cell_labels(c)
+    labels = gens.cell_labels(c) | g3.sym_labels(c, V)
+    if c.get('tiny'):
+        labels.add('tiny_tilt')
     labels.add('kind_' + case.get('kind', 'unknown'))
     npb = sum(pbc)
     labels.add({0: 'pbc_none', 3: 'pbc_all'}.get(npb, 'pbc_mixed'))
@@ -315,6 +354,31 @@ def case_labels(case, pos, V, o, pbc, cutoff, exp, near, D0, rb, maxcoord, atcut
     s = (pos - o) @ np.linalg.inv(V)
     if np.any((np.abs(s) <= 1e-12) | (np.abs(s - 1) <= 1e-12)):
         labels.add('on_face')
+    # near-threshold classes (judged like everything else: the exempt band is `near`, 1e-9 * cutoff + rounding)
+    face = np.minimum(np.abs(s), np.abs(s - 1))
+    if np.any((face > 1e-12) & (face <= 1e-3)):
+        labels.add('near_face')
+        if np.any((face > 1e-12) & (face <= 1e-6)):
+            labels.add('near_face_le_1e-6')
+    if N > 1 and D is not None:
+        off = ~np.eye(N, dtype=bool)
+        gap = np.abs(D - cutoff)
+        judged = off & ~near & (gap <= 1e-3 * cutoff)
+        if judged.any():
+            labels.add('near_cut')
+            if (judged & (gap <= 1e-6 * cutoff)).any():
+                labels.add('near_cut_le_1e-6')
+            if (judged & (D < cutoff)).any():
+                labels.add('near_cut_inside')
+            if (judged & (D >= cutoff)).any():
+                labels.add('near_cut_outside')
+            if (judged & (D0 > D)).any():
+                labels.add('near_cut_image')
+        pd = D[off & (D > 0)]
+        if (pd <= 1e-3 * cutoff).any():
+            labels.add('near_coincident')
+        if len(pd) and pd.max() >= 1e8 * pd.min():
+            labels.add('decades')                # separations over 8+ orders of magnitude in one call
     if N > 1 and (D0 + np.eye(N) == 0).any():
         labels.add('coincident_atoms')
     if case.get('initialsize') is not None or case.get('deltasize') is not None:
@@ -390,7 +454,7 @@ def oracle_exact(case):
     require(np.array_equal(np.asarray(system.atoms.pos, dtype=float), pos) and list(system.pbc) == pbc,
             'building a neighbour list changed the system')
     maxcoord = max((len(r) for r in rows), default=0)
-    return case_labels(case, pos, V, o, pbc, cutoff, exp, near, D0, rb, maxcoord, atcut, exact) | form_labels(case, system)
+    return case_labels(case, pos, V, o, pbc, cutoff, exp, near, D0, rb, maxcoord, atcut, exact, D) | form_labels(case, system)
 
 
 # ----------------------------------------------------------------------------- sizes
@@ -801,8 +865,393 @@ def oracle_history(case):
     return labels
 
 
+# ----------------------------------------------------------------------------- ledger
+#
+# Classes A (result ledger) and B (caller-side mutation) of the cross-pollination round.  Everything a call hands out - the raw
+# array of nlist(), NeighborList objects built by the constructor / System.neighborlist / read from a file, and the arrays
+# their properties return - is entered in a ledger together with a copy of what the documentation defines of it (coordination
+# numbers and the first coord entries of every row), judged by the reference when it is first read, and compared bit for bit
+# with that copy after EVERY later call on the same or the other system.  The caller overwrites in place what it handed in
+# (the position array given to Atoms, the arrays given to Box, the pbc object; the system through its setters) and what was
+# handed out (an array of nlist(), the arrays behind a NeighborList): no other entry may move, an object that had not been
+# read yet must describe the system as it was when it was built, and the same call made again must be right.
+
+class _ArrView:
+    """a raw array returned by nlist(), read through the same checks as a NeighborList"""
+
+    def __init__(self, arr):
+        self.nlist = arr
+        self.coord = arr[:, 0]
+
+    def __len__(self):
+        return len(self.nlist)
+
+    def __getitem__(self, i):
+        return self.nlist[i, 1:1 + int(self.coord[i])]
+
+
+def _used(arr):
+    """(coordination numbers, the listed neighbours row after row) - the documented part of a coord + neighbours array
+    (columns beyond the coordination number are uninitialised storage)"""
+    arr = np.asarray(arr)
+    coord = arr[:, 0].copy()
+    mask = np.arange(arr.shape[1] - 1)[None, :] < coord[:, None]
+    return coord, arr[:, 1:][mask].copy()
+
+
+class _Model2(_Model):
+    """_Model plus the caller's side of the hand-over (the very objects given to Atoms, Box and System)"""
+
+    def __init__(self, sub):
+        self.sub = sub
+        self.system, self.pos, self.V, self.o, self.pbc, self.handed = build_system2(sub)
+        self.cutoff = float(sub['cutoff'])
+
+
+class _Entry:
+    def __init__(self, what, kind, obj, snap, route, model):
+        self.what, self.kind, self.obj, self.snap, self.route, self.model = what, kind, obj, snap, route, model
+        self.read = False
+        self.alive = True
+        self.mutated = False          # the caller changed the system between the call and the first read
+        self.rows = None
+        self.copy = None
+        self.views = []               # (name, array handed out by a property, copy)
+
+
+class _Ledger:
+    def __init__(self, labels):
+        self.entries = []
+        self.labels = labels
+
+    def add(self, what, kind, obj, snap, route, model, read=True):
+        e = _Entry(what, kind, obj, snap, route, model)
+        self.entries.append(e)
+        if read:
+            self.first_read(e)
+        return e
+
+    def first_read(self, e, a=0):
+        nl = _ArrView(e.obj) if e.kind == 'array' else e.obj
+        e.rows = _judge(nl, e.snap, e.what + (' (first read after the caller changed the system)' if e.mutated else ''))
+        e.copy = _used(nl.nlist)
+        e.read = True
+        if e.mutated:
+            self.labels.add('unread_then_mutated')
+        if e.kind == 'object':
+            N = len(e.rows)
+            item = nl[a % N]
+            e.views = [('coord', nl.coord, np.array(nl.coord)), ('nlist', nl.nlist, _used(nl.nlist)), ('item %d' % (a % N), item, np.array(item))]
+        if any(e.rows):
+            self.labels.add('has_pairs')
+
+    def live(self, kinds=('array', 'object')):
+        return [e for e in self.entries if e.alive and e.kind in kinds]
+
+    def rebuilt(self, e, what, snap, route, model, read):
+        """build() / load() on the object replaced its content: the arrays its properties handed out before are 'the
+        underlying array' in the words of the docstring - whether they follow or keep the old content is not stated, they
+        leave the ledger; the object is entered anew"""
+        e.what, e.snap, e.route, e.model = what, snap, route, model
+        e.read, e.mutated, e.rows, e.copy, e.views = False, False, None, None, []
+        if read:
+            self.first_read(e)
+
+    def overwrite(self, e, how):
+        """the caller writes into what it was handed; returns False where numpy does not let it"""
+        if e.kind == 'array':
+            if not e.obj.flags['WRITEABLE']:
+                return False
+            e.obj[...] = -7
+        else:
+            nl = e.obj
+            how = how % 3
+            if how == 0:
+                nl.nlist[...] = 0
+            elif how == 1:
+                nl.coord[...] = 0
+                nl.nlist[:, 1:] = -1
+            else:
+                for i in range(len(nl)):
+                    nl[i][...] = -1
+                nl.nlist[:, 0] = 0
+        e.alive = False
+        return True
+
+    def verify(self, when, full=False):
+        n, counts = 0, set()
+        for e in self.entries:
+            if not (e.alive and e.read):
+                continue
+            arr = np.asarray(e.obj if e.kind == 'array' else e.obj.nlist)
+            require(arr.ndim == 2 and arr.shape[0] == len(e.rows), lambda: '%s: shape %r %s' % (e.what, arr.shape, when))
+            coord, flat = _used(arr)
+            require(np.array_equal(coord, e.copy[0]) and np.array_equal(flat, e.copy[1]),
+                    lambda: '%s: was %r when it was handed out, reads %r %s (no call was made on it in between)'
+                    % (e.what, e.rows[:6], [[int(x) for x in arr[i, 1:1 + max(0, min(int(arr[i, 0]), arr.shape[1] - 1))]] for i in range(min(len(arr), 6))], when))
+            for name, view, copy in e.views:
+                if name == 'nlist':
+                    c2, f2 = _used(view)
+                    ok = np.array_equal(c2, copy[0]) and np.array_equal(f2, copy[1])
+                else:
+                    ok = np.array_equal(np.asarray(view), copy)
+                require(ok, lambda: '%s: the array handed out as .%s changed %s (no call was made on the object in between)' % (e.what, name, when))
+            if full:
+                same_lists(e.rows, read_lists(_ArrView(e.obj) if e.kind == 'array' else e.obj, len(e.rows), e.what + ' ' + when),
+                           e.what + ': when handed out versus ' + when)
+            n += 1
+            counts.add(len(e.rows))
+        return n, counts
+
+
+def _edit2(m, step, labels):
+    """_edit, plus 'handed': the caller overwrites in place the very objects it gave to Atoms / Box / System"""
+    if step['edit'] != 'handed':
+        return _edit(m, step, labels)
+    h = m.handed
+    hp, hb = h['pos'], h['pbc']
+    if isinstance(hp, np.ndarray) and hp.flags['WRITEABLE'] and len(hp) > 1:
+        hp[...] = np.roll(hp, 1, axis=0)              # the same atoms in another order: exact in every dtype, all inside the cell
+    elif isinstance(hp, list) and len(hp) > 1:
+        hp.reverse()
+    h['vects'][...] = np.nan
+    h['origin'][...] = np.nan
+    if isinstance(hb, np.ndarray):
+        hb[...] = ~hb
+    elif isinstance(hb, list):
+        hb[:] = [not x for x in hb]
+    # what the system holds now is read back as data (whether Atoms / System keep the caller's object is C06's matter) ...
+    pos = np.array(m.system.atoms.pos, dtype=float)
+    pbc = [bool(p) for p in m.system.pbc]
+    if not np.array_equal(pos, m.pos) or pbc != m.pbc:
+        labels.add('edit_handed_aliased')
+    m.pos, m.pbc = pos, pbc
+    # ... except the box, which every earlier and later list depends on through the cell vectors
+    require(np.array_equal(np.asarray(m.system.box.vects), m.V) and np.array_equal(np.asarray(m.system.box.origin), m.o),
+            'overwriting the arrays that had been given to Box changed the box of the system')
+    labels.add('edit_handed')
+
+
+_led_kinds = st.sampled_from(['sparse', 'targeted', 'targeted', 'faces', 'dense', 'dense', 'dyadic', 'near', 'cluster'])
+_LED_SYSTEMS = {k: g3.systems(kind=k) for k in ('sparse', 'targeted', 'faces', 'dense', 'dyadic', 'near', 'cluster')}
+_led_op = st.fixed_dictionaries({
+    'op': st.sampled_from(['fn', 'fn', 'ctor', 'method', 'lazy', 'lazy', 'load', 'load', 'rebuild', 'mutin', 'mutin', 'mutout', 'mutout', 'again']),
+    'sys': st.integers(0, 1),
+    'fac': st.sampled_from([0.5, 0.75, 1.0, 1.0, 1.0, 1.25, 1.5]),
+    'sizes': st.one_of(st.none(), st.none(), st.tuples(st.integers(1, 6), st.integers(1, 4)).map(list)),
+    'how': st.integers(0, 11),
+    'edit': st.sampled_from(['pbc', 'roll', 'copyatom', 'setpos', 'viewset', 'handed', 'handed']),
+    'a': st.integers(0, 1000), 'b': st.integers(0, 1000),
+    'pbc': gens.pbcs.map(lambda p: [bool(x) for x in p]),
+})
+_led_nops = st.sampled_from([3, 4, 4, 5, 5, 6, 7])
+
+
+@st.composite
+def ledger_cases(draw):
+    return {'systems': [draw(_LED_SYSTEMS[draw(_led_kinds)]) for _ in range(2)], 'ops': [draw(_led_op) for _ in range(draw(_led_nops))]}
+
+
+def oracle_ledger(case):
+    import atomman as am
+    models = [_Model2(sub) for sub in case['systems']]
+    labels = set()
+    for m in models:
+        labels.add('kind_' + m.sub['kind'])
+        labels |= form_labels(m.sub, m.system)
+    led = _Ledger(labels)
+    tmp = tempfile.mkdtemp(prefix='c03-')
+    try:
+        def call(route, m, cutoff, sizes, read=True):
+            kw = {} if sizes is None else dict(initialsize=int(sizes[0]), deltasize=int(sizes[1]))
+            carg = spell_cutoff(m.sub, cutoff)
+            what = '%s for system %d, cutoff %.17g, sizes %r' % ({'fn': 'nlist()', 'ctor': 'NeighborList()', 'method': 'System.neighborlist()'}[route],
+                                                                models.index(m), cutoff, sizes)
+            if route == 'fn':
+                arr = keyed(m.system, lambda: am.nlist(m.system, carg, **kw))
+                require(isinstance(arr, np.ndarray) and arr.ndim == 2, lambda: 'nlist() returned %r' % type(arr))
+                return led.add(what, 'array', arr, m.snapshot(cutoff), (route, m, cutoff, sizes), m)
+            if route == 'ctor':
+                nl = keyed(m.system, lambda: am.NeighborList(system=m.system, cutoff=carg, **kw))
+            else:
+                nl = keyed(m.system, lambda: m.system.neighborlist(cutoff=carg, **kw))
+            require(isinstance(nl, am.NeighborList), lambda: '%s returned %r' % (what, type(nl)))
+            return led.add(what, 'object', nl, m.snapshot(cutoff), (route, m, cutoff, sizes), m, read=read)
+
+        made_calls = 0
+        for n, op in enumerate(case['ops']):
+            m = models[op['sys'] % len(models)]
+            cutoff = m.cutoff * float(op['fac'])
+            sizes, how, kind = op['sizes'], int(op['how']), op['op']
+            objs = led.live(('object',))
+            live = led.live()
+            if kind in ('load', 'rebuild') and not objs:
+                kind = 'ctor'
+            if kind in ('mutout', 'again') and not live:
+                kind = 'fn'
+            if kind in ('fn', 'ctor', 'method'):
+                call(kind, m, cutoff, sizes)
+            elif kind == 'lazy':
+                call(('ctor', 'method')[how % 2], m, cutoff, sizes, read=False)
+            elif kind == 'load':
+                # another source every time (a loaded object is a source only where there is nothing else)
+                built = [x for x in objs if x.route is not None] or objs
+                src = built[(op['a'] + sum(1 for x in led.entries if x.route is None)) % len(built)]
+                if not src.read:
+                    led.first_read(src, op['b'])
+                path = os.path.join(tmp, 'nlist_%d.txt' % n)
+                src.obj.dump(path)
+                h = how % 4
+                if h == 0:
+                    nl = am.NeighborList(model=path)
+                elif h == 1:
+                    with open(path, 'rb') as fh:
+                        nl = am.NeighborList(model=fh)
+                elif h == 2:
+                    with open(path, 'rb') as fh:
+                        nl = am.NeighborList(model=io.BytesIO(fh.read()))
+                else:
+                    with open(path) as fh:
+                        nl = am.NeighborList(model=fh.read())
+                e = led.add('read (%s) from the dump of [%s]' % (('path', 'binary stream', 'BytesIO', 'content')[h], src.what), 'object', nl,
+                            src.snap, None, src.model)
+                if sum(1 for x in led.live(('object',)) if x.route is None and x.rows != e.rows) >= 1:
+                    labels.add('loaded_different_alive')
+            elif kind == 'rebuild':
+                e = objs[op['b'] % len(objs)]
+                kw = {} if sizes is None else dict(initialsize=int(sizes[0]), deltasize=int(sizes[1]))
+                carg = spell_cutoff(m.sub, cutoff)
+                if how % 2:
+                    keyed(m.system, lambda: e.obj.build(system=m.system, cutoff=carg, **kw))
+                else:
+                    keyed(m.system, lambda: e.obj.build(m.system, carg, **kw))
+                led.rebuilt(e, 'build() for system %d, cutoff %.17g on the object of [%s]' % (models.index(m), cutoff, e.what), m.snapshot(cutoff),
+                            ('ctor', m, cutoff, sizes), m, read=(how // 2) % 2 == 0)
+            elif kind == 'mutin':
+                for e in led.entries:
+                    if e.alive and not e.read and e.model is m:
+                        e.mutated = True
+                _edit2(m, op, labels)
+            elif kind == 'mutout':
+                e = live[op['a'] % len(live)]
+                if not e.read:
+                    led.first_read(e, op['b'])
+                if led.overwrite(e, how):
+                    labels.add('overwrote_' + e.kind)
+                    if e.route is not None and e.model is not None:
+                        # the same call again: a cached or shared result would now be the caller's scribble
+                        call(*e.route)
+                        labels.add('again_after_overwrite')
+            else:
+                e = live[op['b'] % len(live)]
+                if e.route is not None:
+                    call(*e.route)
+                    labels.add('repeated_call')
+                else:
+                    call('fn', m, cutoff, sizes)
+            labels.add('op_' + kind)
+            nver, counts = led.verify('after step %d (%s)' % (n + 1, kind))
+            if nver >= 2 and kind != 'mutin':
+                labels.add('ledger')
+                if len(counts) > 1:
+                    labels.add('ledger_mixed_counts')
+                if nver >= 4:
+                    labels.add('ledger_ge_4')
+            if nver >= 1 and kind == 'mutin':
+                labels.add('ledger_after_caller_change')
+        for e in led.entries:
+            if e.alive and not e.read:
+                led.first_read(e)
+                labels.add('read_at_the_end')
+        led.verify('at the end', full=True)
+        for m in models:
+            m.check_system('at the end')
+    finally:
+        shutil.rmtree(tmp, ignore_errors=True)
+    if 'ledger' in labels and 'has_pairs' in labels:
+        labels.add('nt')
+    return labels
+
+
+# ----------------------------------------------------------------------------- combos (enumerated)
+#
+# Class H: every creation route x every ordered pair (thorough: triple) of operations on ONE object, read after every step or
+# not before the end (judged by oracle_history), and every ordered pair of routes handing out TWO results for the same or
+# for different systems followed by each caller-side operation on the first (judged by oracle_ledger) - enumerated, on three
+# fixed small systems with 3, 5 and 2 atoms that each have a pair realised only through a periodic image.
+
+def _fixed_systems():
+    def sub(lx, ly, lz, xy, xz, yz, origin, pbc, rel, cutoff, kind):
+        c = {'lx': lx, 'ly': ly, 'lz': lz, 'xy': xy, 'xz': xz, 'yz': yz, 'origin': origin, 'rot': None, 'lefthanded': False}
+        V, o = gens.cell_vects(c), gens.cell_origin(c)
+        return {'cell': c, 'kind': kind, 'initialsize': None, 'deltasize': None, 'pbc': pbc, 'cutoff': cutoff,
+                'pos': (np.array(rel, dtype=float) @ V + o).tolist()}
+    return [sub(4.0, 5.0, 6.0, 0.0, 0.0, 0.0, [0.0, 0.0, 0.0], [True, False, True], [[0.05, 0.2, 0.2], [0.975, 0.2, 0.2], [0.5, 0.5, 0.5]], 1.0, 'fixed3'),
+            sub(3.0, 3.5, 4.0, 0.5, -0.4, 0.3, [-1.0, 2.0, 0.5], [True, True, False],
+                [[0.05, 0.5, 0.5], [0.95, 0.5, 0.5], [0.5, 0.05, 0.2], [0.5, 0.97, 0.2], [0.5, 0.5, 0.8]], 0.9, 'fixed5'),
+            sub(10.0, 10.0, 11.0, 0.0, 0.0, 0.0, [0.0, 0.0, 0.0], [False, False, True], [[0.5, 0.19, 1.5 / 11.0], [0.5, 0.21, 0.999]], 2.0, 'fixed2')]
+
+
+_COMBO_OPS = [
+    {'op': 'build', 'sys': 0, 'fac': 1.0, 'sizes': None, 'how': 0},
+    {'op': 'build', 'sys': 1, 'fac': 1.25, 'sizes': [2, 1], 'how': 1},
+    {'op': 'load', 'sys': 1, 'fac': 1.0, 'sizes': None, 'how': 0},
+    {'op': 'load', 'sys': 0, 'fac': 0.75, 'sizes': [1, 1], 'how': 3},
+    {'op': 'selfload', 'sys': 0, 'fac': 1.0, 'sizes': None, 'how': 0},
+    {'op': 'edit', 'sys': 0, 'fac': 1.0, 'sizes': None, 'how': 0, 'edit': 'pbc', 'pbc': [True, True, True]},
+    {'op': 'edit', 'sys': 1, 'fac': 1.0, 'sizes': [3, 2], 'how': 1, 'edit': 'roll'},
+]
+_COMBO_CREATE = ['ctor', 'method', 'model_path', 'model_stream', 'method_model']
+_COMBO_ROUTES = ['fn', 'ctor', 'method', 'lazy', 'load']
+_COMBO_SECOND = ['rebuild', 'mutout', 'mutin', 'again', 'load']
+
+
+def combo_cases(tier):
+    import itertools
+    fixed = _fixed_systems()
+    cases = []
+
+    def step(k, read):
+        d = {'edit': 'pbc', 'a': 1, 'b': 2, 'pbc': [False, True, True], 'peek': ['coord', 'item'] if read else [], 'judge': bool(read)}
+        d.update(_COMBO_OPS[k])
+        return d
+
+    seqs = list(itertools.product(range(7), repeat=2))
+    seqs += list(itertools.product(range(7), repeat=3)) if tier == 'thorough' else list(itertools.product((1, 3, 4, 6), repeat=3))
+    n = 0
+    for create in _COMBO_CREATE:
+        for seq in seqs:
+            for read in (True, False):
+                cases.append({'family': 'history', 'systems': [fixed[n % 3], fixed[(n + 1 + n // 3) % 3]], 'create': create,
+                              'inspect0': ['coord', 'item', 'len'] if read else [], 'judge0': bool(read), 'steps': [step(k, read) for k in seq]})
+                n += 1
+    for r1 in _COMBO_ROUTES:
+        for r2 in _COMBO_ROUTES:
+            for second in _COMBO_SECOND:
+                for other in (0, 1):
+                    for how in ((0, 1, 2) if second == 'mutout' else (0, 2) if second == 'rebuild' else (0,)):
+                        base = {'fac': 1.0, 'sizes': None, 'how': how, 'edit': 'handed' if how else 'pbc', 'a': 0, 'b': 0, 'pbc': [True, True, False]}
+                        ops = [dict(base, op='ctor', sys=0), dict(base, op='ctor', sys=1, fac=1.25)] if 'load' in (r1, r2) else []   # something to dump
+                        ops += [dict(base, op=r1, sys=0, a=0), dict(base, op=r2, sys=other, a=0 if r1 == 'load' else 1), dict(base, op=second, sys=1 - other, a=len(ops), b=len(ops))]
+                        ops.append(dict(base, op='fn', sys=0))
+                        cases.append({'family': 'ledger', 'systems': [fixed[n % 3], fixed[(n + 1) % 3]], 'ops': ops})
+                        n += 1
+    return cases
+
+
+def oracle_combos(case):
+    if case['family'] == 'history':
+        labels = oracle_history(case)
+        labels.add('single_%d_steps' % len(case['steps']))
+    else:
+        labels = oracle_ledger(case)
+        labels.add('two_results')
+    labels.add('family_' + case['family'])
+    return labels
+
+
 CLAUSES = [
-    Clause('exact', oracle_exact, g3.systems, quick=11000, thorough=330000,
+    Clause('exact', oracle_exact, g3.systems, quick=10000, thorough=330000,
            min_share={'nt': 0.3, 'has_pairs': 0.3, 'ghost_only_bin': 0.35, 'image_pair': 0.15, 'grew_rows': 0.08,
                       'bin_grew': 0.025, 'pair_exactly_at_cutoff': 0.012, 'pbc_mixed': 0.3, 'rotated': 0.18,
                       'tilted': 0.2, 'cutoff_gt_width': 0.04, 'own_image_within_cutoff': 0.015, 'kind_targeted': 0.1,
@@ -811,23 +1260,32 @@ CLAUSES = [
                       'scale_large': 0.04, 'exact_scaled': 0.025},
            desc='every list equals the independent reference {j != i : shortest of the 27 candidates < cutoff}; strictly '
                 'ascending, no self entry, symmetric, coord = length = first column; for every input form'),
-    Clause('sizes', oracle_sizes, sizes_cases, quick=2200, thorough=55000,
+    Clause('sizes', oracle_sizes, sizes_cases, quick=2000, thorough=55000,
            min_share={'nt': 0.15, 'grew_twice': 0.1, 'size_one': 0.2, 'pos_readonly_stored': 0.09,
                       'scale_1': 0.25, 'scaled': 0.2, 'scale_1e-10': 0.06, 'scale_le_1e-8': 0.11, 'scale_large': 0.04},
            desc='identical lists for default and drawn initialsize/deltasize (both, and each alone), and for the default again afterwards'),
-    Clause('file', oracle_file, file_cases, quick=2000, thorough=38000,
+    Clause('file', oracle_file, file_cases, quick=1800, thorough=38000,
            min_share={'nt': 0.3, 'ragged': 0.15, 'has_empty_row': 0.25, 'two_digit_ids': 0.08, 'pos_readonly_stored': 0.07,
                       'scale_1': 0.25, 'scaled': 0.2, 'scale_1e-10': 0.06, 'scale_le_1e-8': 0.12, 'scale_large': 0.04},
            desc='dump then NeighborList(model=path | open binary stream | BytesIO | content string) and System.neighborlist(model=): '
                 'identical lists; second dump identical text'),
-    Clause('api', oracle_api, api_cases, quick=1800, thorough=22000,
+    Clause('api', oracle_api, api_cases, quick=1600, thorough=22000,
            min_share={'nt': 0.28, 'via_function': 0.12, 'via_build': 0.1, 'positional_arguments': 0.17, 'pos_readonly_stored': 0.07,
                       'scale_1': 0.25, 'scaled': 0.2, 'scale_1e-10': 0.06, 'scale_le_1e-8': 0.12, 'scale_large': 0.04},
            desc='System.neighborlist, nlist(), NeighborList.build (positional and keyword) give the same lists as NeighborList(system=, cutoff=); system untouched'),
-    Clause('history', oracle_history, history_cases, quick=1600, thorough=30000,
+    Clause('history', oracle_history, history_cases, quick=1400, thorough=30000,
            min_share={'nt': 0.17, 'replaced_after_read': 0.28, 'replaced_other_natoms': 0.15, 'read_before_first_step': 0.25,
                       'op_load': 0.15, 'op_edit': 0.13, 'op_selfload': 0.06, 'unjudged_step': 0.09, 'pos_readonly_stored': 0.12,
                       'mixed_scales': 0.25, 'scaled': 0.3, 'scale_1e-10': 0.1, 'scale_le_1e-8': 0.19, 'scale_large': 0.08},
            desc='one NeighborList object through build / load / dump-load / in-place system edits, read in varying orders: after every '
                 'step it equals the independent reference for what it was last given; an untouched second list stays as it was'),
+    Clause('ledger', oracle_ledger, ledger_cases, quick=1400, thorough=30000,
+           min_share={},
+           desc='everything handed out by nlist() / NeighborList / System.neighborlist / a file for two systems is judged by the reference when first '
+                'read and compared bit for bit (documented part) with a copy after every later call; the caller overwrites what it handed in '
+                'and what it was handed: no other result moves, an unread object describes the system as it was, the same call again is right'),
+    Clause('combos', oracle_combos, enumerate=combo_cases,
+           min_share={},
+           desc='enumerated: 5 creation routes x every ordered pair (thorough: triple) of 7 operations on one object, read after every step or '
+                'only at the end; 5 x 5 routes handing out two results x 5 caller-side operations on the first, same and different systems'),
 ]
